@@ -11,7 +11,9 @@ def k_harnesses(tier):
         ("c05_find_train_intersect_range", 900, [F + "find_train_intersect (LinkOptType::Range)"], ["idx_sentinel < len", "range width <= 16 (LinkOptType::new)", "link indices index links_blocked in range"], {"path length": "1..5", "unwind": 7}),
         ("c05_find_train_intersect_check", 900, [F + "find_train_intersect (LinkOptType::Check)"], ["idx_sentinel < len", "link indices index links_blocked in range"], {"path length": "1..5", "unwind": 7}),
     ]
-    if tier == "thorough":
-        for n in (1, 2, 3):
-            hs.append((f"c05_add_blocking_trains_len{n}", 3600, [F + "add_blocking_trains"], ["base view ends at trains_blocking.len()", "add view inside trains_blocking"], {"trains_blocking length": n, "unwind": n + 3}))
+    abt = ["l2_a02", "l3_a13", "l3_a22"] if tier == "quick" else ["l1_a01", "l2_a02", "l2_a12", "l3_a03", "l3_a13", "l3_a22", "l3_a02", "l4_a24", "l4_a13"]
+    for a in abt:
+        ln, a0, a1 = int(a[1]), int(a[4]), int(a[5])
+        hs.append((f"c05_add_blocking_trains_{a}", 900, [F + "add_blocking_trains"], ["base view ends at trains_blocking.len()", "add view inside trains_blocking"],
+                   {"trains_blocking length": ln, "add view": f"[{a0},{a1}) (concrete)", "base view start": "symbolic 0..len", "unwind": 8}))
     return hs
